@@ -939,6 +939,17 @@ func (q *WithdrawQueue) Add(record *WithdrawRecord) {
 	q.Records = append(q.Records, record)
 }
 
+// Insert puts record back at position i (at the end if i is out of range).
+func (q *WithdrawQueue) Insert(i int, record *WithdrawRecord) {
+	if i < 0 || i >= len(q.Records) {
+		q.Records = append(q.Records, record)
+		return
+	}
+	q.Records = append(q.Records, nil)
+	copy(q.Records[i+1:], q.Records[i:])
+	q.Records[i] = record
+}
+
 func (q *WithdrawQueue) Delete(record *WithdrawRecord) {
 	deleted := -1
 	for i, r := range q.Records {
